@@ -282,26 +282,40 @@ def cfg_text(alphabet, incfiles, max_stmts, max_files, bases, harness_link=True,
 
 
 def explore(run, alphabet, incfiles, max_stmts, max_files, bases, harness_link=True, simulate=None, depth=None,
-            label=None, timeout=1500, seed=None, extra=()):
-    """Run TLC on AsmCore with the given alphabet; returns (records, incfile pool)."""
+            label=None, timeout=1500, seed=None, extra=(), consume=None, batch=25000):
+    """Run TLC on AsmCore with the given alphabet; returns (records, incfile pool).
+    consume: optional callable(records, incfile pool) -> None called per batch of `batch` records instead of keeping them all
+    (big state spaces: the records of a 5-statement exploration do not fit in memory); returns ([], pool) then."""
+    state = {"inc": None, "buf": [], "bad": []}
+
+    def flush():
+        if state["buf"] and consume is not None:
+            if state["inc"] is None:
+                raise MachineryError("AsmCore did not print its include-file pool before the first program")
+            consume(state["buf"], state["inc"])
+            state["buf"] = []
+
+    def on_export(r):
+        if "incfiles" in r:
+            state["inc"] = r["incfiles"]
+            return
+        if not all(r["chk"].values()) and len(state["bad"]) < 3:
+            state["bad"].append(r)
+        state["buf"].append(r)
+        if consume is not None and len(state["buf"]) >= batch:
+            flush()
+
     res = require_ok(run_tlc("AsmCore", cfg_text=cfg_text(alphabet, incfiles, max_stmts, max_files, bases, harness_link, extra),
-                             simulate=simulate, depth=depth, seed=seed, workers=(1 if simulate else 16),
+                             simulate=simulate, depth=depth, seed=seed, workers=(1 if simulate else 16), on_export=on_export,
                              label=label or f"AsmCore/{alphabet} <= {max_stmts} stmts x {max_files} files", timeout=timeout))
     run.add_tlc(res)
-    inc = None
-    recs = []
-    for r in res.exports:
-        if "incfiles" in r:
-            inc = r["incfiles"]
-        else:
-            recs.append(r)
-    if inc is None:
+    if state["inc"] is None:
         raise MachineryError("AsmCore did not print its include-file pool")
+    flush()
     if res.violated:
-        bad = [r for r in recs if not all(r["chk"].values())]
         run.violation(f"model: invariant {res.violated} violated in AsmCore.tla ({alphabet})",
-                      {"failing_clauses": bad[:3], "tail": res.tail[-2000:]})
-    return recs, inc
+                      {"failing_clauses": state["bad"], "tail": res.tail[-2000:]})
+    return state["buf"], state["inc"]
 
 
 def kinds_of(rec, inc=None):
@@ -379,3 +393,21 @@ def explore_given(run, programs, incfiles, bases, harness_link=True, label=None,
     if len(recs) != len({repr(p) for p in programs}):
         raise MachineryError(f"AsmCore evaluated {len(recs)} of {len(programs)} given programs\n{res.tail[-800:]}")
     return recs, inc
+
+
+def explore_replay(run, alphabet, incfiles, max_stmts, max_files, bases, opts, nontrivial, keep=4000, after=None, **kw):
+    """explore() + replay_all() in batches (bounded memory).  Returns up to `keep` replayed tasks (for samples / notes) and the
+    include pool.  after(tasks) is called per batch with the replayed tasks (e.g. to replay transformed variants)."""
+    kept = []
+
+    def consume(recs, inc):
+        tasks = replay_all(run, recs, inc, opts, nontrivial)
+        if after is not None:
+            after(tasks)
+        room = keep - len(kept)
+        if room > 0:
+            kept.extend(tasks[:room])
+
+    _, inc = explore(run, alphabet, incfiles, max_stmts, max_files, bases, harness_link=opts.get("harness_link", True),
+                     consume=consume, **kw)
+    return kept, inc
